@@ -45,6 +45,7 @@ def correspondence(ctx):
         for words, feat in chargen.make_tapes(rng, r, b, want=3):
             meta = {"recipe": r.to_json(), "budget": b, "words": words if len(words) <= 64 else words[:64] + ["..."], "features": feat}
             meta["_recipe"] = r
+            meta["_words"] = words
             cases.append((chargen.chargen_line(r, b, words), meta))
             ctx.count("tape_" + feat["kind"])
             ex = r.excluded()
